@@ -77,7 +77,12 @@ func (l *Listener) listen() {
 		// read can find it nil after the check, an unlocked one can see half of it.
 		l.lock.Lock()
 		v := l.listener
-		if l.lock.Unlock(); v == nil {
+		// The wait for the lock can span a whole Replace: a Close that came
+		// meanwhile left the new socket alone (it saw Replacing), look again.
+		if l.lock.Unlock(); l.state.Closing() {
+			break
+		}
+		if v == nil {
 			time.Sleep(time.Millisecond * 30) // Prevent CPU buring loops.
 			continue
 		}
